@@ -28,7 +28,7 @@ func init() {
 		ID:    "C19",
 		Level: "exploration",
 		Rule: "every callable (all ugo.BuiltinObjects functions, error values' New, every function of the fmt/json/strings/time module maps, every method name of time values via CallName) x " +
-			"every argument tuple of length 0..3 (thorough: 0..4 over a reduced pool for the 4th) over a 27-value boundary pool x three routes (Object.Call, CallEx with a VM, script call `f(...args)` on a VM without recovery); " +
+			"every argument tuple of length 0..3 (thorough: 0..4 over a reduced pool for the 4th) over a 28-value boundary pool x three routes (Object.Call, CallEx with a VM, script call `f(...args)` on a VM without recovery); " +
 			"oracle: the call returns (no panic, no fatal runtime error under a 2 GiB address-space limit, no hang > 20 s), a nil error comes with a non-nil Object; " +
 			"non-trivial = the tuple is not rejected by an arity check (the call returns no WrongNumberOfArgumentsError)",
 		Run:         run,
@@ -109,7 +109,7 @@ func callables() []callable {
 
 var compiledFn ugo.Object
 
-func poolSize() int { return 27 }
+func poolSize() int { return 28 }
 
 // arg builds a fresh i-th pool value (callees may mutate their arguments).
 func arg(i int) ugo.Object {
@@ -173,6 +173,9 @@ func arg(i int) ugo.Object {
 	case 26:
 		// a quoted string that grows while it is decoded: six malformed bytes (each becomes a 3-byte U+FFFD) and a tail
 		return ugo.Bytes("\"\xff\xff\xff\xff\xff\xfftttttttttttt\"")
+	case 27:
+		// a callable that is not a compiled function (callbacks are usually given script functions)
+		return ugo.BuiltinObjects[ugo.BuiltinLen]
 	}
 	panic("pool")
 }
